@@ -27,22 +27,22 @@ type Interp struct {
 	curFrame   *frame
 
 	// ghost monitors
-	alloc      allocMon
-	monitorOn  bool
-	old        map[*Value]bool
-	oldMaps    map[*MapV]bool
+	alloc        allocMon
+	monitorOn    bool
+	old          map[*Value]bool
+	oldMaps      map[*MapV]bool
 	sharedWrites []string
-	freshN     int
-	lockDepth  int
-	syncMaps   map[*Value]*MapV
-	syncPools  map[*Value][]Value
-	poolForks  int
-	maxDepth   int
-	syncWrites int
-	mapOrder   int // 0 insertion order, 1 reversed
-	errRange   Value
-	errSyntax  Value
-	seeded     map[string]Value
+	freshN       int
+	lockDepth    int
+	syncMaps     map[*Value]*MapV
+	syncPools    map[*Value][]Value
+	poolForks    int
+	maxDepth     int
+	syncWrites   int
+	mapOrder     int // 0 insertion order, 1 reversed
+	errRange     Value
+	errSyntax    Value
+	seeded       map[string]Value
 }
 
 type deferred struct {
@@ -143,6 +143,9 @@ func (ip *Interp) globalCell(g *ssa.Global) *Value {
 	cell := new(Value)
 	if v, ok := ip.seeded[g.Pkg.Pkg.Path()+"."+g.Name()]; ok {
 		*cell = v
+	} else if g.Pkg.Pkg.Path() == "unicode" && hostRangeTable(g.Name()) != nil {
+		// the tables of package unicode are read from the toolchain's own unicode package
+		*cell = &NativeObj{kind: "rangetable", obj: g.Name()}
 	} else {
 		*cell = zero(deref(g.Type()))
 		if st, isStruct := (*cell).(Struct); isStruct && len(st) == 0 {
